@@ -1,7 +1,7 @@
 //! C20, bucket crossing of the two bucketed RWA registries (token binder, document manager).
 //!
 //! Built with the source hook `RUSTFLAGS="--cfg stellar_verif"`: both BUCKET_SIZE constants are 2, so a registry of up
-//! to 6 elements spans three buckets (edges at the global indices 1|2 and 3|4) within the default model capacities.
+//! to 6 tokens / 5 documents spans three buckets (edges at the global indices 1|2 and 3|4) within small model capacities.
 //! The code under test is the library's own: the index arithmetic `index / BUCKET_SIZE`, `index % BUCKET_SIZE`, the
 //! swap-and-pop whose LAST element lives in another bucket than the removed one, the creation of a bucket when the
 //! count reaches a multiple of BUCKET_SIZE and the emptying of the last bucket are width-independent.
@@ -443,7 +443,7 @@ pub mod docs {
     use crate::util::*;
     use soroban_sdk::model::{self, world, Slot};
     use soroban_sdk::Vec as SVec;
-    use soroban_sdk::{Arb, BytesN, Env, String};
+    use soroban_sdk::{Arb, BytesN, Env, Flat, String};
     use stellar_tokens::rwa::extensions::doc_manager::{
         get_document, get_document_by_index, get_document_count, get_documents, remove_document, set_document, Document,
         DocumentRemoved, DocumentStorageKey as Key, DocumentUpdated, BUCKET_SIZE, DOCUMENT_EXTEND_AMOUNT, MAX_DOCUMENTS,
@@ -514,7 +514,7 @@ pub mod docs {
         }
         let docs = [Document::arb(), Document::arb(), Document::arb(), Document::arb(), Document::arb()];
         let count: u32 = kani::any();
-        kani::assume(count + room <= ND as u32);
+        kani::assume(count <= ND as u32 - room);
         let written: bool = kani::any();
         kani::assume(written || count == 0);
         store(Pre { names, docs, count }, written)
@@ -556,28 +556,75 @@ pub mod docs {
             0
         }
     }
-    fn bucket_now(b: usize) -> SVec<Entry> {
-        if model::slot(S_B + b).present {
-            model::slot_val::<SVec<Entry>>(S_B + b)
-        } else {
-            SVec::new(&Env::default())
-        }
+    /// flat words of one (name, document) entry; the first NW words are the name
+    const EWD: usize = <Entry as Flat>::W;
+    const NW: usize = <BytesN<32> as Flat>::W;
+    fn entry_words(x: &Entry) -> [u64; EWD] {
+        let mut w = [0u64; EWD];
+        x.put(&mut w);
+        w
     }
-    /// the stored buckets, read once
+    /// The stored buckets, read once, as flat words (a stored `Vec<Entry>` is its tagged length followed by the entries,
+    /// an entry is its name followed by its document; flat words are canonical, so word equality is value equality).
+    /// The same facts as through `Vec<Entry>::get` + `==`, without rebuilding byte arrays for every comparison.
     pub struct Stored {
-        b: [SVec<Entry>; NB],
+        /// bucket lengths (0 for an absent bucket), whether every present bucket carries a well-formed length
+        len: [u32; NB],
+        well_formed: bool,
+        /// words at the global index g = 2 * b + k (meaningful iff k < len[b])
+        w: [[u64; EWD]; NB * 2],
     }
     impl Stored {
         pub fn now() -> Self {
-            Stored { b: [bucket_now(0), bucket_now(1), bucket_now(2)] }
+            let mut s = Stored { len: [0; NB], well_formed: true, w: [[0u64; EWD]; NB * 2] };
+            let mut b = 0;
+            while b < NB {
+                let sl = model::slot(S_B + b);
+                if sl.present {
+                    s.well_formed &= (sl.val[0] >> 56) == model::TAG_U32;
+                    s.len[b] = sl.val[0] as u32;
+                }
+                let mut k = 0;
+                while k < 2 {
+                    let mut c = 0;
+                    while c < EWD {
+                        s.w[2 * b + k][c] = sl.val[1 + k * EWD + c];
+                        c += 1;
+                    }
+                    k += 1;
+                }
+                b += 1;
+            }
+            s
         }
-        /// entry at the (concrete) global index g
-        pub fn entry(&self, g: usize) -> Option<Entry> {
-            self.b[g / 2].get((g % 2) as u32)
+        /// an entry is stored at the (concrete) global index g
+        pub fn has(&self, g: usize) -> bool {
+            ((g % 2) as u32) < self.len[g / 2]
+        }
+        /// the entry stored at the (concrete) global index g is `x`
+        pub fn entry_is(&self, g: usize, x: &Entry) -> bool {
+            let xw = entry_words(x);
+            let mut r = self.has(g);
+            let mut c = 0;
+            while c < EWD {
+                r &= self.w[g][c] == xw[c];
+                c += 1;
+            }
+            r
+        }
+        /// the entry stored at the (concrete) global index g carries the name with the words `nw`
+        pub fn name_is(&self, g: usize, nw: &[u64; NW]) -> bool {
+            let mut r = self.has(g);
+            let mut c = 0;
+            while c < NW {
+                r &= self.w[g][c] == nw[c];
+                c += 1;
+            }
+            r
         }
         /// the bucket lengths are the ones the gap-free layout of `c` entries prescribes
         pub fn shape(&self, c: u32) -> bool {
-            self.b[0].len() == bucket_len(c, 0, W) && self.b[1].len() == bucket_len(c, 1, W) && self.b[2].len() == bucket_len(c, 2, W)
+            self.well_formed && self.len[0] == bucket_len(c, 0, W) && self.len[1] == bucket_len(c, 1, W) && self.len[2] == bucket_len(c, 2, W)
         }
     }
     fn index_now(i: usize) -> Option<u32> {
@@ -596,39 +643,34 @@ pub mod docs {
     fn inv_now(names: &[BytesN<32>; ND], s: &Stored) -> bool {
         let c = count_now();
         let mut ok = c <= ND as u32 && s.shape(c) && (model::slot(S_CNT).present || c == 0);
-        let mut g = 0;
-        while g < ND {
-            if let Some((nm, _)) = s.entry(g) {
-                let mut found = false;
-                let mut i = 0;
-                while i < ND {
-                    if nm == names[i] {
-                        found = true;
-                        ok &= model::slot(S_IDX + i).present && model::slot_val::<u32>(S_IDX + i) == g as u32;
-                    }
-                    i += 1;
-                }
-                ok &= found;
-            }
-            g += 1;
-        }
+        let mut nw = [[0u64; NW]; ND];
+        let mut ip = [false; ND];
+        let mut ix = [0u32; ND];
         let mut i = 0;
         while i < ND {
-            if model::slot(S_IDX + i).present {
-                let ix = model::slot_val::<u32>(S_IDX + i);
-                ok &= ix < c;
-                let mut g = 0;
-                while g < ND {
-                    if g as u32 == ix {
-                        match s.entry(g) {
-                            Some((nm, _)) => ok &= nm == names[i],
-                            None => ok = false,
-                        }
-                    }
-                    g += 1;
-                }
+            names[i].put(&mut nw[i]);
+            ip[i] = model::slot(S_IDX + i).present;
+            if ip[i] {
+                ix[i] = model::slot_val::<u32>(S_IDX + i);
             }
+            ok &= !ip[i] || ix[i] < c;
             i += 1;
+        }
+        let mut g = 0;
+        while g < ND {
+            let mut found = false;
+            let mut i = 0;
+            while i < ND {
+                let here = s.name_is(g, &nw[i]);
+                // entry g carries name i  =>  Index(name i) = g
+                ok &= !here || (ip[i] && ix[i] == g as u32);
+                // Index(name i) = g  =>  entry g carries name i
+                ok &= !(ip[i] && ix[i] == g as u32) || here;
+                found |= here;
+                i += 1;
+            }
+            ok &= found || !s.has(g);
+            g += 1;
         }
         ok
     }
@@ -694,9 +736,9 @@ pub mod docs {
         let mut g = 0;
         while g < ND {
             if g as u32 == at {
-                placed = s.entry(g) == Some((name.clone(), doc.clone()));
+                placed = s.entry_is(g, &(name.clone(), doc.clone()));
             } else if (g as u32) < pre.count {
-                others &= s.entry(g) == Some(pre.entry(g));
+                others &= s.entry_is(g, &pre.entry(g));
             }
             if g != i {
                 others &= same_entry(&before[S_IDX + g], &after[S_IDX + g]);
@@ -732,24 +774,6 @@ pub mod docs {
         setup_world();
         remove_document_from(declare_state(0));
     }
-    #[kani::proof]
-    #[kani::unwind(50)]
-    pub fn xp_declare_only() {
-        setup_world();
-        let pre = declare_state(0);
-        witness!(pre.count == 5, "xp.five");
-        end_checks(DECLARED);
-    }
-    #[kani::proof]
-    #[kani::unwind(50)]
-    pub fn xp_declare_inv() {
-        setup_world();
-        let pre = declare_state(0);
-        let s = Stored::now();
-        prop!(inv_now(&pre.names, &s), "C20.xp.inv");
-        witness!(pre.count == 5, "xp.five");
-        end_checks(DECLARED);
-    }
     fn remove_document_from(pre: Pre) {
         let e = Env::default();
         let i = pick();
@@ -772,9 +796,9 @@ pub mod docs {
         while g < ND {
             if g < last {
                 if g == i {
-                    ok &= s.entry(g) == Some(moved.clone());
+                    ok &= s.entry_is(g, &moved);
                 } else {
-                    ok &= s.entry(g) == Some(pre.entry(g));
+                    ok &= s.entry_is(g, &pre.entry(g));
                 }
             }
             if g != i && !(i != last && g == last) {
@@ -888,7 +912,7 @@ pub mod docs {
         let i = pick();
         let j: u32 = kani::any();
         let which: u8 = kani::any();
-        witness!(pre.count == 5 && which == 0 && i == 0, "operations_accepted.remove_first_of_five");
+        witness!(pre.count == 4 && which == 0 && i == 0 && j == 3, "operations_accepted.remove_first_of_four");
         witness!(pre.count == 4 && which == 1 && i == 4, "operations_accepted.set_opens_bucket_2");
         world().must_succeed = true;
         if which == 0 {
